@@ -65,6 +65,15 @@ CHECKS = {
               'solver returning with its last verdict False must have warned. method="linear" must raise ValueError exactly on specs that are not '
               'linearly recursive.'),
         design_ref='DESIGN.md §4 C02'),
+    'C03': dict(
+        technique='boundary monitor on backward() vs autograd through an independent dense unrolled Kleene iteration (runtime monitoring)',
+        text=('Runtime monitoring: for generated grammars of all recursion classes (conditioned to spectral radius <= 0.9; strata for shared factors, '
+              'a factor twice in a rule, edges on external nodes, edgeless nodes, unreachable factors, zero weights, patterned weights) the real '
+              'sum_product is differentiated in the Real and Log semirings under every admissible method with a random output cotangent, and each '
+              'weights.grad is compared (rtol 1e-6) with torch.autograd through a dense K-step Kleene iteration written independently, K doubled '
+              'until values and gradients are stationary to 1e-10. Hooks count SumProduct.backward, J, J_log and the duplicated-external-node '
+              'special case so that an unreached mechanism makes the run inconclusive.'),
+        design_ref='DESIGN.md §4 C03'),
 }
 
 NOT_BUILT = {}
